@@ -108,14 +108,29 @@ func runC15(x *Ctx) {
 		}
 		bad := ""
 		n := 0
+		// the function and the helpers spliced into its paths
+		seenIn := map[ssa.Instruction]bool{}
+		var instrs []ssa.Instruction
 		for _, b := range f.Blocks {
 			for _, in := range b.Instrs {
-				for _, op := range in.Operands(nil) {
-					if c, ok := (*op).(*ssa.Const); ok && c.Value != nil && strings.HasPrefix(c.Value.ExactString(), "\"") {
-						n++
-						if c.Value.ExactString() != `"/"` && c.Value.ExactString() != `""` {
-							bad += "string constant " + c.Value.ExactString() + " at " + x.P.Pos(in.Pos()) + "\n"
-						}
+				seenIn[in] = true
+				instrs = append(instrs, in)
+			}
+		}
+		for _, p := range x.pathsQuiet(f) {
+			p.Instrs(func(in ssa.Instruction) {
+				if !seenIn[in] {
+					seenIn[in] = true
+					instrs = append(instrs, in)
+				}
+			})
+		}
+		for _, in := range instrs {
+			for _, op := range in.Operands(nil) {
+				if c, ok := (*op).(*ssa.Const); ok && c.Value != nil && strings.HasPrefix(c.Value.ExactString(), "\"") {
+					n++
+					if c.Value.ExactString() != `"/"` && c.Value.ExactString() != `""` {
+						bad += "string constant " + c.Value.ExactString() + " at " + x.P.Pos(in.Pos()) + "\n"
 					}
 				}
 			}
